@@ -867,6 +867,33 @@ func ruleAllocScansAll(r *Run) {
 					}
 				}
 			}
+			// a result decided before the scan: a return reachable from the entry without entering
+			// the loop, on a path that already looked at an element's id (an empty-list early
+			// return reads none and is fine).
+			avoid := reachableBlocks(fn.Blocks[0], map[*ssa.BasicBlock]bool{l.Header: true})
+			bypassRet, bypassRead := false, token.NoPos
+			for _, b := range fn.Blocks {
+				if !avoid[b] {
+					continue
+				}
+				for _, in := range b.Instrs {
+					switch x := in.(type) {
+					case *ssa.Return:
+						bypassRet = true
+					case *ssa.FieldAddr:
+						if fv, _ := fieldOfAddr(x); fieldIs(p, fv, pkgDoc, "Relationship", "ID") {
+							bypassRead = x.Pos()
+						}
+					case *ssa.Field:
+						if fv, _ := fieldOfVal(x); fieldIs(p, fv, pkgDoc, "Relationship", "ID") {
+							bypassRead = x.Pos()
+						}
+					}
+				}
+			}
+			byp := bypassRet && bypassRead != token.NoPos
+			r.Check("alloc-scans-all", fmt.Sprintf("%s:loop#%d:no-bypass", shortName(fn), li), l.Header.Instrs[0].Pos(), !byp,
+				fmt.Sprintf("%s %s", shortName(fn), map[bool]string{false: "decides its result only after the scanning loop (or without looking at any id)", true: "can return an id derived from a single element's id (" + p.pos(bypassRead) + ") without running the loop that visits every element: with ids in arbitrary order an id that is already taken is handed out"}[byp]))
 			r.Check("alloc-scans-all", fmt.Sprintf("%s:loop#%d", shortName(fn), li), l.Header.Instrs[0].Pos(), early == "",
 				fmt.Sprintf("%s derives a new id from the ids in the list; the loop that reads them %s", shortName(fn), map[bool]string{true: "visits every element", false: "can be left before every element has been seen (" + early + "): with ids in arbitrary order (any package written by another application) an id that is already taken is handed out"}[early == ""]))
 		}
@@ -908,6 +935,155 @@ func ruleSaveTruncate(r *Run) {
 		})
 	}
 	r.Min("file_creations_in_save", n, 1)
+}
+
+// save-target: the file Save creates is the one the caller named.  The path handed to the creating
+// call denotes the filename parameter — the parameter itself, possibly through path-normalising
+// library calls (Clean, Abs, FromSlash) and module helpers that return only such values.  A path
+// computed from it (an appended extension, another directory) is accepted only as a temporary that
+// is renamed onto a path denoting the parameter.  Otherwise Save reports success while the path the
+// caller passed holds no (or the old) file.
+func ruleSaveTarget(r *Run) {
+	p := r.P
+	root := r.mustFunc(pkgDoc, "(*Document).Save")
+	if root == nil || len(root.Params) < 2 {
+		return
+	}
+	var denotes func(v ssa.Value, par *ssa.Parameter, depth int) bool
+	denotes = func(v ssa.Value, par *ssa.Parameter, depth int) bool {
+		v = stripConv(v)
+		if v == ssa.Value(par) {
+			return true
+		}
+		if depth > 4 {
+			return false
+		}
+		switch x := v.(type) {
+		case *ssa.UnOp:
+			// a parameter captured by a closure lives in a cell: the load of a cell whose stores all
+			// denote the parameter
+			if al, ok := x.X.(*ssa.Alloc); ok && x.Op == token.MUL && al.Referrers() != nil {
+				stores := 0
+				for _, u := range *al.Referrers() {
+					if st, ok := u.(*ssa.Store); ok && st.Addr == ssa.Value(al) {
+						stores++
+						if !denotes(st.Val, par, depth+1) {
+							return false
+						}
+					}
+				}
+				return stores > 0
+			}
+		case *ssa.Phi:
+			for _, e := range x.Edges {
+				if !denotes(e, par, depth+1) {
+					return false
+				}
+			}
+			return len(x.Edges) > 0
+		case *ssa.Extract:
+			if c, ok := x.Tuple.(*ssa.Call); ok && x.Index == 0 {
+				switch calleeName(c) {
+				case "path/filepath.Abs", "path/filepath.EvalSymlinks":
+					return denotes(c.Call.Args[0], par, depth+1)
+				}
+			}
+		case *ssa.Call:
+			switch calleeName(x) {
+			case "path/filepath.Clean", "path/filepath.FromSlash", "path.Clean":
+				return denotes(x.Call.Args[0], par, depth+1)
+			}
+			cal := staticCallee(x)
+			if cal == nil || !p.inModule(cal) || len(cal.Blocks) == 0 || cal.Signature.Results().Len() != 1 {
+				return false
+			}
+			// a module helper: every result denotes one of its parameters whose argument denotes par
+			for _, ret := range returnsOf(cal) {
+				okr := false
+				for k, cp := range cal.Params {
+					if k < len(x.Call.Args) && denotes(retResult(ret, 0), cp, depth+1) && denotes(x.Call.Args[k], par, depth+1) {
+						okr = true
+					}
+				}
+				if !okr {
+					return false
+				}
+			}
+			return true
+		}
+		return false
+	}
+	par := root.Params[1]
+	reach := p.staticReach(root)
+	reach[root] = true
+	// denotesRoot: v (a value of fn) denotes Save's filename parameter — in Save itself, or through
+	// the parameter of a helper at every call of that helper from code Save reaches
+	var denotesRoot func(fn *ssa.Function, v ssa.Value, depth int) bool
+	denotesRoot = func(fn *ssa.Function, v ssa.Value, depth int) bool {
+		if fn == root {
+			return denotes(v, par, 0)
+		}
+		if depth > 3 {
+			return false
+		}
+		for k, fp := range fn.Params {
+			if !denotes(v, fp, 0) {
+				continue
+			}
+			sites, all := 0, true
+			for g := range reach {
+				if !p.inModule(g) {
+					continue
+				}
+				allInstrs(g, func(in ssa.Instruction) {
+					c, ok := in.(ssa.CallInstruction)
+					if !ok || staticCallee(c) != fn || k >= len(c.Common().Args) {
+						return
+					}
+					sites++
+					if !denotesRoot(g, c.Common().Args[k], depth+1) {
+						all = false
+					}
+				})
+			}
+			if sites > 0 && all {
+				return true
+			}
+		}
+		return false
+	}
+	type site struct {
+		pos  token.Pos
+		what string
+		ok   bool
+	}
+	var creates []site
+	renameOK := false
+	for _, fn := range sortedFuncs(reach) {
+		if !p.inModule(fn) {
+			continue
+		}
+		allInstrs(fn, func(in ssa.Instruction) {
+			c, ok := in.(ssa.CallInstruction)
+			if !ok {
+				return
+			}
+			switch calleeName(c) {
+			case "os.Create", "os.OpenFile", "os.WriteFile":
+				creates = append(creates, site{c.Pos(), shortName(fn) + ":" + calleeName(c), denotesRoot(fn, c.Common().Args[0], 0)})
+			case "os.Rename":
+				if denotesRoot(fn, c.Common().Args[1], 0) {
+					renameOK = true
+				}
+			}
+		})
+	}
+	for i, s := range creates {
+		okc := s.ok || renameOK
+		r.Check("save-target", fmt.Sprintf("%s#%d", s.what, i+1), s.pos, okc,
+			fmt.Sprintf("%s on the Save path: %s", s.what, map[bool]string{true: "the file created is the one named by Save's filename parameter (or a temporary renamed onto it)", false: "the path is computed from the filename parameter (not the parameter itself up to Clean/Abs) and nothing renames the result onto it — Save returns nil while the path the caller passed holds no file, or still the old one"}[okc]))
+	}
+	r.Min("file_creations_in_save_body", len(creates), 1)
 }
 
 // ---------------------------------------------------------------------------
